@@ -212,6 +212,7 @@ func concOp(r0 *Rng, shared []byte) string {
 }
 
 func runC18(c *Ctx) error {
+	setSolo(false) // for the whole run: the sequential prediction must draw exactly what the concurrent phase draws
 	r := c.R
 	rng := c.Rng
 	r.Rule = "N goroutines (2..64) x GOMAXPROCS 2..16, each running its own operation sequence (encode, decode, decode of a shared read-only buffer, protect/unprotect, IKE and Child key " +
@@ -356,6 +357,12 @@ func runC18(c *Ctx) error {
 		for _, f := range files {
 			b, _ := os.ReadFile(f)
 			txt := string(b)
+			if strings.Contains(txt, "DATA RACE") && !strings.Contains(txt, "github.com/free5gc/ike") {
+				// neither stack of any report passes through the library: the runner raced with itself
+				r.Notes = appendOnce(r.Notes, "race report without a library frame (the runner's own state) ignored: "+txt)
+				os.Remove(f)
+				continue
+			}
 			if strings.Contains(txt, "DATA RACE") {
 				if len(txt) > 3000 {
 					txt = txt[:3000]
